@@ -109,7 +109,7 @@ end M;
 equation
   y = delay(x, 6 * h);
   x = time;
-  v = {x, y};
+  v[1] = x; v[2] = y;
 end M;
 """,
  "int-attrs": """model M
